@@ -190,6 +190,29 @@ class PP:
         return out
 
 
+# units in which a macro's replacement list is consumed by the parser (a constant with a suffix, an attribute name, a keyword spelling, a literal) and expanded
+# again afterwards, also under '#': the tokens of the definition are shared by every expansion, so the text compiles like its expanded form only if no consumer alters them
+_S = '#define str(x) #x\n#define xstr(x) str(x)\n'
+REUSE = [
+    _S + '#define N 10UL\nunsigned long a = N; const char *s = xstr(N); unsigned long b = N; const char *t = xstr(N N);\n',
+    _S + '#define H 0X1FuLL\n#define O 017U\n#define B 0B101L\nunsigned long long a = H + O + B; const char *s = xstr(H O B); unsigned long long b = H + O + B; const char *t = xstr((H, O, B));\n',
+    _S + '#define F 1.5F\n#define G 0X1P-2\n#define E 1E+2\nfloat a = F; double g = G + E; const char *s = xstr(F G E); float b = F; double h = G + E; const char *t = str(F) xstr(F);\n',
+    _S + '#define PACKED __attribute__((__packed__))\nstruct PACKED A { char c; int i; }; struct PACKED B { char c; int i; }; struct PACKED C { char c; long l; }; int sa = sizeof(struct A), sb = sizeof(struct B), sc = sizeof(struct C); const char *s = xstr(PACKED);\n',
+    _S + '#define PK [[__gnu__::__packed__]]\nstruct PK A { char c; int i; }; struct PK B { char c; int i; }; int sa = sizeof(struct A), sb = sizeof(struct B); const char *s = xstr(PK); struct PK C { char c; short h; }; int sc = sizeof(struct C);\n',
+    _S + '#define UN __attribute__((__unused__, __unknown_attr__(1, "x")))\nUN int u1; UN int u2; const char *s = xstr(UN); struct UN S { int m; }; UN int u3;\n',
+    _S + '#define GREETING "hello"\nconst char *a = GREETING; const char *b = GREETING "x"; int n = sizeof(GREETING); const char *c = xstr(GREETING); const char *d = GREETING; int m = sizeof GREETING GREETING;\n',
+    _S + '#define W L"w\\n"\n#define U8 u8"\\303\\251"\n#define C16 u"\\351x"\nconst int *a = W; int n = sizeof(W); const char *s = xstr(W U8 C16); const int *b = W W; const unsigned char *u = U8; const unsigned short *v = C16; int m = sizeof(U8) + sizeof(C16); const char *t = xstr(W);\n',
+    _S + '#define C \'A\'\n#define Q \'\\\'\'\n#define X \'\\x41\'\n#define WC L\'\\377\'\nint a = C + Q + X + WC; const char *s = xstr(C Q X WC); int b = C + Q + X + WC; const char *t = xstr(C);\n',
+    _S + '#define ESC "a\\tb\\\\\\"c"\nconst char *a = ESC; const char *s = xstr(ESC); const char *b = ESC; int n = sizeof(ESC);\n',
+    _S + '#define TU typeof_unqual(const int)\n#define TY __typeof__(1UL)\n#define AS _Alignas(8)\nTU a = 1; TY b = 2; AS char c = 3; const char *s = xstr(TU TY AS); TU d = 4; TY e = 5; AS char f = 6; int g = sizeof(TY) + _Alignof(f);\n',
+    _S + '#define IN __inline__\n#define SG __signed__\n#define CO const\n#define TH __thread\n#define ALO __alignof__(long)\n#define VO __volatile__\nstatic IN SG int f(CO char *p) { return *p; } const char *s = xstr(IN SG CO VO); static IN SG int g(CO char *p) { VO int k = *p; return f(p) + k; } int (*pp)(CO char *) = g; static TH int tl1; int al1 = ALO; const char *s2 = xstr(TH ALO); static TH int tl2; int al2 = ALO;\n',
+    _S + '#define SA _Static_assert(sizeof(long) == 8, "m")\n#define GEN _Generic(1UL, unsigned long: 10U, default: 20)\nSA; int a = GEN; const char *s = xstr(SA GEN); SA; int b = GEN;\n',
+    _S + '#define OFF __builtin_offsetof(struct S, b)\n#define VA __builtin_va_list\nstruct S { char a; long b; }; int a = OFF; VA *p; const char *s = xstr(OFF VA); int b = OFF; VA *q;\n',
+    _S + '#define ASMN __asm__("real_name")\nint x ASMN; int *p = &x; const char *s = xstr(ASMN); extern int x ASMN; int *q = &x;\n',
+    _S + '#define DES { [0].a = 1, [2].b = 0X2L }\n#define XS(...) #__VA_ARGS__\nstruct S { int a; long b; } v[3] = DES, w[3] = DES; const char *s = XS(DES);\n',
+]
+
+
 REDEF = [
     # (first, second, compatible?)
     ('#define A 1 + 2', '#define A 1 + 2', True), ('#define A 1 + 2', '#define A 1  +  2', True), ('#define A 1 + 2', '#define A 1 +2', False), ('#define A 1 + 2', '#define A 1+2', False),
